@@ -165,7 +165,11 @@ EXPORT char *_gets_s_chk(char *restrict dest, rsize_t dmax,
         memset(dest + len, 0, dmax - len);
 #endif
     } else {
-        dest[0] = '\0'; /* nothing was read */
+#ifdef SAFECLIB_STR_NULL_SLACK
+        memset(dest, 0, dmax); /* nothing was read */
+#else
+        dest[0] = '\0';
+#endif
         if (!feof(stdin) && errno == 0) { /* closed? */
         nospc:
             handle_error(dest, dmax, "gets_s: length exceeds dmax", ESNOSPC);
